@@ -105,7 +105,7 @@ fn in_bounds<const N: usize, const MAXD: usize>() {
     vassert!(ok, "every produced descriptor is 8-aligned and lies inside the tag");
 }
 
-// @harness props=C18 tier=quick panic=forbid
+// @harness props=C18,C08 tier=quick panic=forbid
 // @encodes multiboot2::EFIMemoryMapTag::memory_areas EFIMemoryAreaIter::new next len size_hint EFIMemoryMapTag::dst_len DynSizedStructure::cast
 // @bound map length L in 0..=96, descriptor size d in 0..=128, all accepted (version 1, d>=40, d%8==0, L%d==0) combinations, contents symbolic
 #[cfg_attr(kani, kani::proof)]
@@ -123,7 +123,7 @@ pub fn c18_accepting_200() {
     accepting::<216, 128>();
 }
 
-// @harness props=C18 tier=quick panic=allow must_panic=yes
+// @harness props=C18,C08 tier=quick panic=allow must_panic=yes
 // @encodes multiboot2::EFIMemoryMapTag::memory_areas EFIMemoryAreaIter::new on rejected combinations
 // @bound L in 0..=96, d in 0..=128, every version, all combinations outside the accepted set
 #[cfg_attr(kani, kani::proof)]
@@ -132,7 +132,7 @@ pub fn c18_rejecting_96() {
     rejecting::<112, 128>();
 }
 
-// @harness props=C18,C01 tier=quick panic=allow
+// @harness props=C18,C01,C08 tier=quick panic=allow
 // @encodes EFIMemoryAreaIter::next (raw pointer arithmetic) with the tag as an exact-size memory object
 // @bound map length exactly 96, d in 0..=128, all versions; object bounds of the model + extent assertion
 #[cfg_attr(kani, kani::proof)]
